@@ -4,6 +4,7 @@ package getopt
 
 import (
 	"fmt"
+	"runtime/debug"
 	"strings"
 	"sync"
 	"testing"
@@ -97,6 +98,32 @@ type c38Scanner struct {
 	cfg    Config
 	unkArg bool
 	res    c38Result
+	// backing stores, so that one scan is one allocation
+	optBuf  [8]c38Opt
+	argBuf  [4]string
+	roleBuf [4]byte
+	pendBuf c38Opt
+}
+
+var c38Pool = sync.Pool{New: func() any { return new(c38Scanner) }}
+
+// c38NewScanner takes a scanner from the pool; its result is valid until c38Free.
+func c38NewScanner(specs []*OptionSpec, cfg Config, unkArg bool) *c38Scanner {
+	s := c38Pool.Get().(*c38Scanner)
+	s.specs, s.cfg, s.unkArg = specs, cfg, unkArg
+	s.res = c38Result{opts: s.optBuf[:0], nonOpts: s.argBuf[:0], roles: s.roleBuf[:0]}
+	return s
+}
+
+func c38Free(ss ...*c38Scanner) {
+	for _, s := range ss {
+		c38Pool.Put(s)
+	}
+}
+
+func (s *c38Scanner) setPending(o c38Opt) {
+	s.pendBuf = o
+	s.res.pending = &s.pendBuf
 }
 
 func (s *c38Scanner) lookupLong(name string) (*OptionSpec, bool) {
@@ -154,7 +181,7 @@ func (s *c38Scanner) long(body string) byte {
 			s.res.opts = append(s.res.opts, c38Opt{spec: sp, long: true, arg: val})
 			return 'R'
 		}
-		s.res.pending = &c38Opt{spec: sp, long: true}
+		s.setPending(c38Opt{spec: sp, long: true})
 		return 'Q'
 	default:
 		s.res.opts = append(s.res.opts, c38Opt{spec: sp, long: true, arg: val})
@@ -210,7 +237,7 @@ func (s *c38Scanner) short(body string) byte {
 				s.res.opts = append(s.res.opts, c38Opt{spec: sp, arg: rest})
 				return 'r' - 32*c38b(n > 0)
 			}
-			s.res.pending = &c38Opt{spec: sp}
+			s.setPending(c38Opt{spec: sp})
 			return 'q' - 32*c38b(n > 0)
 		default:
 			s.res.opts = append(s.res.opts, c38Opt{spec: sp, arg: rest})
@@ -275,9 +302,9 @@ func (s *c38Scanner) scan(args []string) *c38Result {
 	return &s.res
 }
 
-func c38Ref(args []string, specs []*OptionSpec, cfg Config, unkArg bool) *c38Result {
-	s := &c38Scanner{specs: specs, cfg: cfg, unkArg: unkArg}
-	return s.scan(args)
+func c38Ref(args []string, specs []*OptionSpec, cfg Config, unkArg bool) (*c38Result, *c38Scanner) {
+	s := c38NewScanner(specs, cfg, unkArg)
+	return s.scan(args), s
 }
 
 // c38Match reports whether an implementation option is the expected occurrence.
@@ -468,12 +495,12 @@ type c38Expect struct {
 	notJudged string
 }
 
-func c38ExpectContext(pre *c38Result, last string, specs []*OptionSpec, cfg Config) c38Expect {
+func c38ExpectContext(pre *c38Result, last string, s *c38Scanner) c38Expect {
+	cfg := s.cfg
 	longCtx := func(body string) c38Expect {
 		if !strings.Contains(body, "=") {
 			return c38Expect{typ: LongOption, text: body}
 		}
-		s := &c38Scanner{specs: specs, cfg: cfg, unkArg: true}
 		s.long(body)
 		if s.res.notJudged != "" {
 			return c38Expect{notJudged: s.res.notJudged}
@@ -504,7 +531,6 @@ func c38ExpectContext(pre *c38Result, last string, specs []*OptionSpec, cfg Conf
 	case last[0] == '-' && cfg&LongOnly != 0:
 		return longCtx(last[1:])
 	case last[0] == '-':
-		s := &c38Scanner{specs: specs, cfg: cfg, unkArg: true}
 		s.short(last[1:])
 		all := s.res.opts
 		if s.res.pending != nil {
@@ -531,7 +557,10 @@ func c38ExpectContext(pre *c38Result, last string, specs []*OptionSpec, cfg Conf
 // c38JudgeComplete: Complete(args) must interpret args[:n-1] as parsing does
 // (reference reading pre) and describe the last element as documented.
 func c38JudgeComplete(opts []*Option, nonOpts []string, ctx Context, pre *c38Result, exp c38Expect) (string, string) {
-	want := append([]c38Opt{}, pre.opts...)
+	want := pre.opts
+	if pre.pending != nil || len(exp.extra) > 0 {
+		want = append(make([]c38Opt, 0, len(pre.opts)+1+len(exp.extra)), pre.opts...)
+	}
 	if pre.pending != nil {
 		p := *pre.pending
 		p.optional, p.argAny = true, true
@@ -582,6 +611,21 @@ func c38SpecSets(k int) [][]int {
 	return out
 }
 
+var c38ErrDigits = [8]string{"0", "1", "2", "3", "4", "5", "6", "7"}
+var c38CtxNames = [6]string{OptionOrArgument: "OptionOrArgument", AnyOption: "AnyOption", LongOption: "LongOption", ChainShortOption: "ChainShortOption", OptionArgument: "OptionArgument", Argument: "Argument"}
+
+func c38Class(kind byte, cfg Config, roles []byte, tail string) string {
+	var b [64]byte
+	n := 0
+	b[n], b[n+1], b[n+2], b[n+3] = kind, '/', '0'+byte(cfg), '/'
+	n += 4
+	n += copy(b[n:], roles)
+	b[n] = '/'
+	n++
+	n += copy(b[n:], tail)
+	return string(b[:n])
+}
+
 // c38Verdict is the outcome of one case.
 type c38Verdict struct {
 	key, msg      string // violation ("" = none)
@@ -601,17 +645,20 @@ func c38RunParse(args []string, specs []*OptionSpec, cfg Config) c38Verdict {
 	if k, m := c38Invariant(opts, nil); k != "" {
 		return c38Verdict{key: k, msg: m, class: "inv:" + k}
 	}
-	ref := c38Ref(args, specs, cfg, true)
+	ref, sc := c38Ref(args, specs, cfg, true)
+	defer c38Free(sc)
 	if ref.notJudged != "" {
-		return c38Verdict{class: fmt.Sprintf("P/%d/nj:%s", cfg, ref.notJudged), counter: ref.notJudged[0]}
+		return c38Verdict{class: c38Class('P', cfg, nil, "nj:"+ref.notJudged), counter: ref.notJudged[0]}
 	}
-	v := c38Verdict{class: fmt.Sprintf("P/%d/%s/%d", cfg, ref.roles, ref.errs), counter: 'j'}
+	v := c38Verdict{class: c38Class('P', cfg, ref.roles, c38ErrDigits[ref.errs&7]), counter: 'j'}
 	v.key, v.msg = c38JudgeParse(opts, nonOpts, err, ref)
 	if v.key != "" && ref.ambiguous {
 		v.secondReading = true
-		if k2, _ := c38JudgeParse(opts, nonOpts, err, c38Ref(args, specs, cfg, false)); k2 == "" {
+		ref2, sc2 := c38Ref(args, specs, cfg, false)
+		if k2, _ := c38JudgeParse(opts, nonOpts, err, ref2); k2 == "" {
 			v.key, v.msg = "", ""
 		}
+		c38Free(sc2)
 	}
 	v.attributable = v.key != ""
 	return v
@@ -627,16 +674,18 @@ func c38RunComplete(args []string, specs []*OptionSpec, cfg Config) c38Verdict {
 	if k, m := c38Invariant(opts, ctx.Option); k != "" {
 		return c38Verdict{key: k, msg: m, class: "inv:" + k}
 	}
-	pre := c38Ref(args[:len(args)-1], specs, cfg, true)
+	pre, sc := c38Ref(args[:len(args)-1], specs, cfg, true)
+	aux := c38NewScanner(specs, cfg, true)
+	defer c38Free(sc, aux)
 	if pre.notJudged != "" {
-		return c38Verdict{class: fmt.Sprintf("C/%d/nj:%s", cfg, pre.notJudged), counter: pre.notJudged[0]}
+		return c38Verdict{class: c38Class('C', cfg, nil, "nj:"+pre.notJudged), counter: pre.notJudged[0]}
 	}
-	exp := c38ExpectContext(pre, args[len(args)-1], specs, cfg)
+	exp := c38ExpectContext(pre, args[len(args)-1], aux)
 	var v c38Verdict
 	if exp.notJudged != "" {
-		v = c38Verdict{class: fmt.Sprintf("C/%d/%s/ctx-nj", cfg, pre.roles), counter: 'a'}
+		v = c38Verdict{class: c38Class('C', cfg, pre.roles, "ctx-nj"), counter: 'a'}
 	} else {
-		v = c38Verdict{class: fmt.Sprintf("C/%d/%s/%v", cfg, pre.roles, exp.typ), counter: 'j'}
+		v = c38Verdict{class: c38Class('C', cfg, pre.roles, c38CtxNames[exp.typ]), counter: 'j'}
 	}
 	v.key, v.msg = c38JudgeComplete(opts, nonOpts, ctx, pre, exp)
 	v.attributable = v.key != ""
@@ -698,12 +747,17 @@ func TestVerifC38(t *testing.T) {
 				c.Violate(key, msg(), replay())
 			}
 		}
-		// pass 1: lists of <= maxArgs elements x spec sets of <= 2 specs;
-		// pass 2 (thorough): lists of <= 3 elements x spec sets of exactly 3 specs
-		maxArgs := vk.Pick(c, 3, 4)
+		// the live heap is tiny and every case allocates a little: with the default
+		// GC pacing 16 workers spend most of their time in collector hand-offs
+		// (measured: 400 % halves the CPU time, larger values lose to page faults)
+		defer debug.SetGCPercent(debug.SetGCPercent(400))
+		// main pass: lists of <= 3 elements x spec sets of <= 2 (quick) / <= 3
+		// (thorough) specs; long pass (thorough): lists of exactly 4 elements x
+		// spec sets of <= 2 specs
 		maxSpecs := vk.Pick(c, 2, 3)
+		longArgs := vk.Pick(c, 0, 4)
 		sets := c38SpecSets(maxSpecs)
-		nSmall := len(c38SpecSets(2))
+		nSingle := len(c38SpecSets(2))
 		specSets := make([][]*OptionSpec, len(sets))
 		setNames := make([]string, len(sets))
 		for i, set := range sets {
@@ -714,15 +768,23 @@ func TestVerifC38(t *testing.T) {
 			}
 			setNames[i] = "{" + strings.Join(names, " ") + "}"
 		}
-		c.Rule(fmt.Sprintf("every argument list of <=%d elements over the %d-element alphabet %q x every set of <=2 option specs from %q (%d sets) x all %d configurations %v, and in the thorough tier also every list of <=3 elements x every set of exactly 3 specs (%d sets); each triple is one case for Parse and, if the list is non-empty, one for Complete; shortest lists and smallest spec sets first; class = (configuration, role of each element in the reference scan [short/chained/attached/detached/optional/unknown/invalid-UTF-8/long/=value/extraneous/consumed-argument/non-option/terminator/after-stop], error kinds, completion context type) or the reason why the case is not judged",
-			maxArgs, len(c38Args), c38Args, c38SpecNames, nSmall, len(c38Configs), c38Configs, len(sets)-nSmall))
+		rule := fmt.Sprintf("every argument list of <=3 elements over the %d-element alphabet %q x every set of <=%d option specs from %q (%d sets) x all %d configurations %v", len(c38Args), c38Args, maxSpecs, c38SpecNames, len(sets), len(c38Configs), c38Configs)
+		if longArgs > 0 {
+			rule += fmt.Sprintf(", and every list of exactly %d elements x every set of <=2 specs (%d sets) x all configurations", longArgs, nSingle)
+		}
+		c.Rule(rule + "; each triple is one case for Parse and, if the list is non-empty, one for Complete; lists by increasing length, smallest spec sets first; class = (configuration, role of each element in the reference scan [short/chained/attached/detached/optional/unknown/invalid-UTF-8/long/=value/extraneous/consumed-argument/non-option/terminator/after-stop], error kinds, completion context type) or the reason why the case is not judged")
 		c.Assume("the reference scanner (harness) is a correct reading of getopt_long(3) conventions common to GNU and BSD plus pkg/getopt's doc comments and website/ref/flag.md",
 			"not judged: '--' met while StopAfterDoubleDash is off; long names that are proper prefixes of a declared long name (getopt_long abbreviations); error message texts; duplicate specs; Complete on an empty list",
 			"in Parse both readings of an unknown short option followed by more characters are accepted (rest is its optional argument / the chain continues); Complete must use the documented one (optional argument)")
-		c.Set("bounds", map[string]any{"max_args_with_le2_specs": maxArgs, "max_args_with_3_specs": vk.Pick(c, 0, 3), "arg_alphabet": len(c38Args), "spec_sets_le2": nSmall, "spec_sets_3": len(sets) - nSmall, "configs": len(c38Configs)})
+		c.Set("bounds", map[string]any{"max_args": 3, "max_specs": maxSpecs, "spec_sets": len(sets), "long_pass_args": longArgs, "long_pass_spec_sets": nSingle, "arg_alphabet": len(c38Args), "configs": len(c38Configs)})
 
-		run := func(maxArgs, setFrom, setTo int) {
-			c.EnumSeqs(len(c38Args), maxArgs, func(l *vk.Local, idx []int) {
+		// one enumeration per exact list length, so that the first case reported
+		// for a violation key is a shortest one although shards run in parallel
+		run := func(nArgs, setFrom, setTo int) {
+			eval := func(l *vk.Local, idx []int) {
+				if len(idx) != nArgs {
+					return
+				}
 				args := make([]string, len(idx))
 				for i, k := range idx {
 					args[i] = c38Args[k]
@@ -781,14 +843,23 @@ func TestVerifC38(t *testing.T) {
 				c.Add("parse_cases_needing_second_unknown_short_reading", amb)
 				c.Add("judged_parse_cases", judgedP)
 				c.Add("judged_complete_cases", judgedC)
-				if len(idx) == maxArgs && idx[0] == 1 && idx[1] == 7 && idx[maxArgs-1] == 14 {
+				if len(idx) >= 3 && idx[0] == 1 && idx[1] == 7 && idx[len(idx)-1] == 14 {
 					c.Sample(fmt.Sprintf("%q", args))
 				}
-			})
+			}
+			if nArgs == 0 {
+				l := vk.NewLocal()
+				eval(l, nil)
+				c.Merge(l)
+				return
+			}
+			c.EnumSeqs(len(c38Args), nArgs, eval)
 		}
-		run(maxArgs, 0, nSmall)
-		if len(sets) > nSmall {
-			run(3, nSmall, len(sets))
+		for n := 0; n <= 3; n++ {
+			run(n, 0, len(sets))
+		}
+		if longArgs > 0 {
+			run(longArgs, 0, nSingle)
 		}
 	})
 }
